@@ -1,18 +1,22 @@
 (* C04 — Idle connections are reused; HTTP/2 requests to an origin share one connection.
-   Statements only; proofs in pool/ProofsC04.v (with pool/FramesC04.v, pool/ProofsC04np.v) and, for the
-   per-primitive lemmas, pool/ProofsLite.v, pool/ProofsLite2.v.
+   Statements only; proofs in pool/ProofsC04.v (with pool/FramesC04.v, pool/ProofsC04a.v, pool/ProofsC04np.v,
+   pool/ProofsC04s2.v) and, for the per-primitive lemmas, pool/ProofsLite.v, pool/ProofsLite2.v.
    FULL STATEMENT: forall cfg ops, mon_C04 cfg ops (trace cfg ops) = true.
    It is REFUTED by the faithful model (c04_refuted_D6 below, known finding D6: the shared handle is out
-   of the idle list between the Issue that popped it and that request's first poll).  What is proved is
-   every clause outside the D6 window: mon_C04_but_D6 is the conjunction (c04_split) of four clause
-   monitors,
-     S1   a request whose Issue saw a usable idle connection does not dial          (c04_monitor_S1, proved)
-     drop a non-multiplexed connection is only discarded closed, expired or surplus (c04_monitor_drop, proved)
-     np   no origin has a waiting request and a usable parked connection            (c04_monitor_np, proved)
-     S2   no second HTTP/2 dial while an HTTP/2 attempt to the origin is in flight  (see the end of this file)
+   of the idle list between the Issue that popped it and that request's first poll).  What is PROVED is
+   every clause outside the D6 window (c04_monitor_but_D6): mon_C04_but_D6 is the conjunction (c04_split)
+   of four clause monitors, each proved for every configuration and every history,
+     S1   a request whose Issue saw a usable idle connection does not dial          (c04_monitor_S1)
+     S2   no second HTTP/2 dial while an HTTP/2 attempt to the origin is in flight  (c04_monitor_S2)
+     drop a non-multiplexed connection is only discarded closed, expired or surplus (c04_monitor_drop)
+     np   no origin has a waiting request and a usable parked connection            (c04_monitor_np)
    The proof attempts found D17 (stale owns_attempt, repaired in the crate) and two imprecisions of the
-   monitor (D6 follow-on blocker, ri_poph), see pool/ProofsC04.v and ocaml/poolrand.ml. *)
+   monitor (D6 follow-on blocker, ri_poph); ocaml/poolrand.ml is the random search that found them. *)
 From HD Require Import common.Base http.Model pool.Model pool.Spec pool.ProofsLite pool.ProofsLite2 pool.ProofsC04.
+
+Theorem c04_monitor_but_D6 : forall cfg ops, mon_C04_but_D6 cfg ops (trace cfg ops) = true.
+Proof. exact mon_C04_but_D6_holds. Qed.
+Print Assumptions c04_monitor_but_D6.
 
 Theorem c04_split : forall cfg ops obs,
   mon_C04_but_D6 cfg ops obs = mon_C04_S1 cfg ops obs && mon_C04_S2 cfg ops obs && mon_C04_drop cfg ops obs && mon_C04_np cfg ops obs.
@@ -22,6 +26,10 @@ Print Assumptions c04_split.
 Theorem c04_monitor_S1 : forall cfg ops, mon_C04_S1 cfg ops (trace cfg ops) = true.
 Proof. exact mon_C04_S1_holds. Qed.
 Print Assumptions c04_monitor_S1.
+
+Theorem c04_monitor_S2 : forall cfg ops, mon_C04_S2 cfg ops (trace cfg ops) = true.
+Proof. exact mon_C04_S2_holds. Qed.
+Print Assumptions c04_monitor_S2.
 
 Theorem c04_monitor_drop : forall cfg ops, mon_C04_drop cfg ops (trace cfg ops) = true.
 Proof. exact mon_C04_drop_holds. Qed.
